@@ -63,6 +63,8 @@ struct Cfg {
   bool mask = false, turbulence = false, live_output = false;
   bool gravity = false, cooling = false, restart_midway = false;
   int live_mask = 7; // which live outputs are switched on
+  int source_type = 0; // 0 SingleStar, 1 AsciiFile, 2 UniformRandom, 3 SingleSupernova
+  bool feedback = false;
   bool radiation = false;
   long packets = 200;
   int seed = 42;
@@ -122,6 +124,8 @@ struct Cfg {
     j["cooling"] = cooling;
     j["restart_midway"] = restart_midway;
     j["live_mask"] = live_mask;
+    j["source_type"] = source_type;
+    j["feedback"] = feedback;
     j["radiation"] = radiation;
     j["packets"] = (long long)packets;
     j["seed"] = seed;
@@ -175,6 +179,8 @@ struct Cfg {
     c.cooling = j.at("cooling").as_bool();
     c.restart_midway = j.at("restart_midway").as_bool();
     c.live_mask = (int)j.at("live_mask").as_int(7);
+    c.source_type = (int)j.at("source_type").as_int(0);
+    c.feedback = j.at("feedback").as_bool();
     c.radiation = j.at("radiation").as_bool();
     c.packets = j.at("packets").as_int(200);
     c.seed = (int)j.at("seed").as_int(42);
@@ -250,8 +256,38 @@ struct Cfg {
     double centre[3];
     for (int k = 0; k < 3; ++k)
       centre[k] = anchor[k] + 0.53 * sides[k];
-    o << "PhotonSourceDistribution:\n  type: SingleStar\n  position: "
-      << vec(centre, "m") << "\n  luminosity: 1.e46 s^-1\n";
+    if (source_type == 1) {
+      o << "PhotonSourceDistribution:\n  type: AsciiFile\n  filename: " << dir
+        << "/sources.yml\n";
+      std::ofstream sf(dir + "/sources.yml");
+      double p2[3];
+      for (int k = 0; k < 3; ++k)
+        p2[k] = anchor[k] + 0.21 * sides[k];
+      sf << "number of sources: 2\nsource[0]:\n  position: " << vec(centre, "m")
+         << "\n  luminosity: 1.e46 s^-1\nsource[1]:\n  position: "
+         << vec(p2, "m") << "\n  luminosity: 3.e45 s^-1\n";
+    } else if (source_type == 2) {
+      o << "PhotonSourceDistribution:\n  type: UniformRandom\n"
+        << sfmt("  source lifetime: %.17g s\n", 0.3 * total_time)
+        << "  source luminosity: 1.e46 s^-1\n  number of sources: 3\n"
+        << "  box anchor: " << vec(anchor, "m") << "\n  box sides: "
+        << vec(sides, "m") << "\n  random seed: 42\n"
+        << sfmt("  update interval: %.17g s\n", 0.05 * total_time)
+        << "  starting time: 0. s\n  output sources: false\n";
+    } else if (source_type == 3) {
+      o << "PhotonSourceDistribution:\n  type: SingleSupernova\n  position: "
+        << vec(centre, "m") << "\n"
+        << sfmt("  lifetime: %.17g s\n",
+                dt > 0. ? 2.5 * dt : 0.03 * total_time)
+        << "  luminosity: 1.e46 s^-1\n"
+        << sfmt("  energy: %.17g J\n",
+                density * 1.67e-27 * sides[0] * sides[1] * sides[2] * 8.3e3 *
+                    temperature * 0.05)
+        << "\n";
+    } else {
+      o << "PhotonSourceDistribution:\n  type: SingleStar\n  position: "
+        << vec(centre, "m") << "\n  luminosity: 1.e46 s^-1\n";
+    }
     o << "PhotonSourceSpectrum:\n  type: Monochromatic\n  frequency: 13.6 eV\n";
     o << "ContinuousPhotonSource:\n  type: None\n";
     if (radiation) {
@@ -292,6 +328,7 @@ struct Cfg {
     o << "  output folder: " << dir << "\n";
     o << "  use mask: " << (mask ? "true" : "false") << "\n";
     o << "  external gravity: " << (gravity ? "true" : "false") << "\n";
+    o << "  do stellar feedback: " << (feedback ? "true" : "false") << "\n";
     o << "  do radiative cooling: " << (cooling ? "true" : "false") << "\n";
     o << "  turbulent forcing: " << (turbulence ? "true" : "false") << "\n";
     o << "RestartManager:\n  path: " << dir << "\n  output interval: "
